@@ -21,11 +21,18 @@ rc, out = sh("git -C /repo worktree add -q --detach %s HEAD" % wt)
 res = {"name": name, "property": prop, "repo_head": sh("git -C /repo log --format=%h -1")[1].strip()}
 try:
     demo = os.path.join(src, "demo_test.go")
+    sub = "."
     if os.path.exists(demo):
-        shutil.copy(demo, os.path.join(wt, "zz_seed_demo_test.go"))
-        rc0, o0 = sh("go test -count=1 -run 'TestSeed' . 2>&1 | tail -15", cwd=wt, timeout=900)
+        import re as _re
+        mpk = _re.search(r"^package\s+(\w+)", open(demo).read(), _re.M)
+        if mpk and mpk.group(1) in ("smtp", "smtp_test"):
+            sub = "./smtp"
+    demo_dst = os.path.join(wt, sub, "zz_seed_demo_test.go")
+    if os.path.exists(demo):
+        shutil.copy(demo, demo_dst)
+        rc0, o0 = sh("go test -vet=off -count=1 -run 'TestSeed' %s 2>&1 | tail -15" % sub, cwd=wt, timeout=900)
         res["demo_without_patch"] = "PASS" if ("ok " in o0 and "FAIL" not in o0) else "FAIL:\n" + o0[-600:]
-        os.remove(os.path.join(wt, "zz_seed_demo_test.go"))
+        os.remove(demo_dst)
     rc, out = sh("git apply --whitespace=nowarn %s" % os.path.join(src, "patch.diff"), cwd=wt)
     res["applies"] = rc == 0
     if rc != 0:
@@ -34,10 +41,10 @@ try:
     res["baseline"] = out.strip().split("\n")[0] if out.strip() else ""
     res["baseline_ok"] = rc == 0
     if os.path.exists(demo):
-        shutil.copy(demo, os.path.join(wt, "zz_seed_demo_test.go"))
-        rc1, o1 = sh("go test -count=1 -run 'TestSeed' . 2>&1 | tail -15", cwd=wt, timeout=900)
+        shutil.copy(demo, demo_dst)
+        rc1, o1 = sh("go test -vet=off -count=1 -run 'TestSeed' %s 2>&1 | tail -15" % sub, cwd=wt, timeout=900)
         res["demo_with_patch"] = "FAIL (as intended)" if "FAIL" in o1 else "PASS (demo does not show the breakage):\n" + o1[-400:]
-        os.remove(os.path.join(wt, "zz_seed_demo_test.go"))
+        os.remove(demo_dst)
     sh("rsync -a --exclude work --exclude .git --exclude seeded /verif/ %s/" % vc)
     res["checks"] = {}
     for c in checks:
